@@ -431,6 +431,25 @@ let lex_cmd (payload : string) : string =
 
 let rec nat_of_int n = if n <= 0 then O else S (nat_of_int (n - 1))
 
+(* C01: run the reference semantics of Mamba on a typed AST / the model of Python on a Core tree.
+   answer: OK <status> <hex lines separated by spaces> *)
+let status_text = function
+  | Done -> "done" | Uncaught c -> "uncaught:" ^ implode c | Unsupported -> "unsupported" | Fuel -> "fuel"
+let run_answer (lines, st) =
+  "OK\t" ^ status_text st ^ "\t" ^ String.concat " " (List.map (fun l -> "h" ^ hex (implode l)) lines)
+let mrun_cmd (payload : string) : string =
+  run_answer (run_mamba (nat_of_int 400) (ast_of (parse_sx payload)))
+(* mrundev <q><i> <ast>: the reference semantics with the recorded deviations switched on *)
+let mrundev_cmd (payload : string) : string =
+  match String.index_opt payload '\t' with
+  | None -> "BAD\tmrundev needs flags and tree"
+  | Some k ->
+      let fl = String.sub payload 0 k in
+      let tree = ast_of (parse_sx (String.sub payload (k + 1) (String.length payload - k - 1))) in
+      run_answer (run_mamba_dev (fl.[0] = '1') (fl.[1] = '1') (nat_of_int 400) tree)
+let pyrun_cmd (payload : string) : string =
+  run_answer (run_py (nat_of_int 400) (core_of (parse_sx payload)))
+
 let split_tab s = String.split_on_char '\t' s
 
 let handle cmd payload =
@@ -451,6 +470,9 @@ let handle cmd payload =
   | "lex" -> lex_cmd payload
   | "gen" -> gen_cmd payload
   | "plines" -> plines_cmd payload
+  | "mrun" -> mrun_cmd payload
+  | "mrundev" -> mrundev_cmd payload
+  | "pyrun" -> pyrun_cmd payload
   | "tableok" -> if table_ok generated then "OK\tT" else "OK\tF"
   | _ -> "BAD\tunknown command"
 
